@@ -196,8 +196,8 @@ def split_assumptions(txt):
 
 
 # ---------------------------------------------------------------- OCaml driver and Go runner
-def build_driver(report):
-    exe = os.path.join(OCAML, "_build", "default", "driver.exe")
+def build_driver(report, pid=None):
+    """extract the models and build the case generator of one property (or of all when pid is None)"""
     model_vos = glob.glob(os.path.join(COQ, "theories", "Base", "*.vo")) + glob.glob(os.path.join(COQ, "theories", "Model", "*.vo")) + \
         glob.glob(os.path.join(COQ, "theories", "Spec", "*.vo")) + glob.glob(os.path.join(COQ, "theories", "Gen", "*.vo"))
     model_ml = os.path.join(OCAML, "model.ml")
@@ -207,19 +207,27 @@ def build_driver(report):
         if rc != 0:
             report["build_errors"].append("extraction failed:\n" + out[-2000:])
             return None
-        # names the driver relies on must not have been renamed by the extraction (foo -> foo0)
     mods = sorted(os.path.basename(f)[:-3] for f in glob.glob(os.path.join(OCAML, "c[0-9][0-9].ml")))
-    gen = "(* GENERATED by bin/vlib.py: one entry per ocaml/cNN.ml *)\nlet table = [\n" + "".join('  "%s", %s.run;\n' % (m.upper(), m.capitalize()) for m in mods) + "]\n"
-    pg = os.path.join(OCAML, "props_gen.ml")
-    if not os.path.exists(pg) or open(pg).read() != gen:
-        open(pg, "w").write(gen)
-    srcs = glob.glob(os.path.join(OCAML, "*.ml")) + [os.path.join(OCAML, "dune")]
-    if newest(srcs) > newest([exe]):
-        rc, out = sh("dune build ./driver.exe 2>&1", cwd=OCAML, timeout=900)
+    for m in mods:
+        pm = os.path.join(OCAML, "main_%s.ml" % m)
+        body = "(* GENERATED by bin/vlib.py *)\nlet () = Drivermain.main %s.run\n" % m.capitalize()
+        if not os.path.exists(pm) or open(pm).read() != body:
+            open(pm, "w").write(body)
+    dune = "; GENERATED by bin/vlib.py: one executable per property generator ocaml/cNN.ml\n(executables\n (names %s)\n (flags (:standard -w -a)))\n" % " ".join("main_" + m for m in mods)
+    pd = os.path.join(OCAML, "dune")
+    if not os.path.exists(pd) or open(pd).read() != dune:
+        open(pd, "w").write(dune)
+    targets = ["main_" + m for m in mods] if pid is None else ["main_" + pid.lower()]
+    ok = None
+    for t in targets:
+        rc, out = sh("dune build ./%s.exe 2>&1" % t, cwd=OCAML, timeout=900)
         if rc != 0:
-            report["build_errors"].append("driver build failed:\n" + out[-3000:])
-            return None
-    return exe
+            report["build_errors"].append("case generator %s failed to build:\n%s" % (t, out[-3000:]))
+            if pid is not None:
+                return None
+        else:
+            ok = os.path.join(OCAML, "_build", "default", t + ".exe")
+    return ok
 
 
 def write_extract_v():
